@@ -231,6 +231,8 @@ def random_config(rng, nmin=4, nmax=7):
     cfg = {"n": n, "deps": deps, "mc": mc, "prio": prio, "seq": seq, "res": res, "bad": bad,
            "act": act, "truthy": truthy, "setup": setup, "ops": ops, "kw": kw, "fn": fn,
            "debug": debug, "run_debug": run_debug, "profile": rng.random() < 0.25, "flavour": rng.choice(["sync", "async"])}
+    if rng.random() < 0.2:
+        cfg["logging"] = True
     if rng.random() < 0.25 and fn == list(range(1, n + 1)):
         cfg["reconf"] = {"prio": [rng.choice([-3, 0, 1, 4, 9]) for _ in range(n)], "seq": [rng.random() < 0.2 for _ in range(n)],
                          "named": [rng.random() < 0.6 for _ in range(n)], "via": rng.choice(["dict", "json", "yaml"]),
@@ -303,6 +305,55 @@ def reconf_config(rng):
     return cfg
 
 
+def pool_pressure_config(rng):
+    """More ready pooled nodes than the pool has room for, after a first node of another resource has finished: the bound of
+    max_concurrency must hold (and the pool be kept full) whatever kinds of futures finished earlier in the run (C04 / C08)."""
+    mc = rng.choice([1, 2, 2, 3])
+    k = mc + rng.randint(1, 2)
+    n = 1 + k + rng.randint(0, 1)
+    deps = [[] for _ in range(n)]
+    prio = [0] * n
+    res = ["thread"] * n
+    res[0] = rng.choice(["async", "async", "thread", "main"])
+    prio[0] = 50
+    for j in range(2, 2 + k):
+        deps[j - 1] = [1] if rng.random() < 0.7 else []
+        prio[j - 1] = rng.choice([1, 2, 3, 4])
+        res[j - 1] = rng.choices(["thread", "async"], weights=rng.choice([(9, 1), (1, 9), (1, 1)]))[0]
+    for j in range(2 + k, n + 1):
+        deps[j - 1] = [rng.randint(2, 1 + k)]
+        res[j - 1] = rng.choice(["thread", "async", "main"])
+    cfg = {"n": n, "deps": deps, "mc": mc, "prio": prio, "seq": [False] * n, "res": res, "bad": [],
+           "act": [None] * n, "truthy": [True] * n, "setup": [False] * n, "debug": [False] * n, "run_debug": False,
+           "ops": ["call"], "kw": [[False] * len(d) for d in deps], "fn": list(range(1, n + 1)), "profile": False,
+           "flavour": rng.choice(["sync", "sync", "async"])}
+    cfg["patient"] = rng.random() < 0.3
+    cfg["cid"] = cfg_key(cfg)
+    return cfg
+
+
+def seq_hold_config(rng):
+    """A sequential node that is started while other nodes are ready, and whose function takes a while: the scheduler has to
+    stay blocked until it has returned, however long that takes (C05; the controller is patient here, see rt.PATIENCE)."""
+    n = rng.randint(3, 4)
+    deps = [[] for _ in range(n)]
+    prio = [rng.choice([1, 2, 3]) for _ in range(n)]
+    seq = [False] * n
+    q = rng.randint(1, n)
+    seq[q - 1] = True
+    prio[q - 1] = 9
+    res = [rng.choice(["thread", "thread", "async"]) for _ in range(n)]
+    res[q - 1] = rng.choice(["thread", "thread", "async"])
+    if n == 4 and rng.random() < 0.5:
+        deps[3] = [rng.choice([1, 2, 3])]
+    cfg = {"n": n, "deps": deps, "mc": rng.choice([2, 3]), "prio": prio, "seq": seq, "res": res, "bad": [],
+           "act": [None] * n, "truthy": [True] * n, "setup": [False] * n, "debug": [False] * n, "run_debug": False,
+           "ops": ["call"], "kw": [[False] * len(d) for d in deps], "fn": list(range(1, n + 1)), "profile": False,
+           "flavour": rng.choice(["sync", "sync", "async"]), "patient": True}
+    cfg["cid"] = cfg_key(cfg)
+    return cfg
+
+
 def seq_defer_config(rng):
     """A sequential node that becomes the best ready candidate while two or three pooled nodes are in flight, one of which
     releases a successor (that may outrank the sequential node) when it finishes: what happens next depends on the order of
@@ -330,6 +381,7 @@ def seq_defer_config(rng):
            "act": [None] * n, "truthy": [True] * n, "setup": [False] * n, "debug": [False] * n, "run_debug": False,
            "ops": ["call"], "kw": [[False] * len(d) for d in deps], "fn": list(range(1, n + 1)), "profile": False,
            "flavour": rng.choice(["sync", "sync", "async"])}
+    cfg["patient"] = rng.random() < 0.3
     cfg["cid"] = cfg_key(cfg)
     return cfg
 
@@ -384,6 +436,8 @@ def explore(cfg, max_runs=400, max_subset=None, max_bg=None, rng=None):
     runs = 0
     complete = True
     nondet = 0
+    if cfg.get("patient"):
+        max_runs = min(max_runs, 5)        # every blocking wait of a patient run costs rt.PATIENCE seconds
     while stack:
         if runs >= max_runs:
             complete = False
